@@ -407,7 +407,7 @@ class Env:
 
 class Gen:
     def __init__(self, rng, max_depth=4, stream='dyadic', avoid_pf11=0.9, measure_p=0.45, drop_p=0.3, zero_p=0.0,
-                 int_chan_p=0.0, plain_t_p=0.0, nest_wrap_p=0.0, typed_p=0.0, reuse_p=0.0, t_param_p=0.0, remap_idx_p=0.0):
+                 int_chan_p=0.0, plain_t_p=0.0, nest_wrap_p=0.0, typed_p=0.0, reuse_p=0.0, t_param_p=0.0, remap_idx_p=0.0, self_map_p=0.0, single_p=0.0):
         # the last four switch on additional shapes (all off by default, the default stream is unchanged):
         #   int_chan_p   probability that a case uses integer channel ids 0, 1, ... (and renamings 'A' <-> 0)
         #   plain_t_p    probability that a FunctionPT's expression is the time variable itself
@@ -424,6 +424,12 @@ class Gen:
         #                index itself (`{'i': 'i + 2'}`): everything below, across repetition / sequence levels, sees the
         #                mapped value
         self.remap_idx_p = remap_idx_p
+        #   self_map_p   probability that a MappingPT re-defines a time / count parameter by an expression whose only
+        #                variable is that parameter itself (`d0 -> d0/2`, `n1 -> n1 + 1`)
+        #   single_p     probability that a case is instantiated with a `to_single_waveform` set (identifiers of
+        #                composite nodes; a node gets an identifier for that purpose if none has one)
+        self.self_map_p = self_map_p
+        self.single_p = single_p
         self.int_chan_p = int_chan_p
         self.plain_t_p = plain_t_p
         self.nest_wrap_p = nest_wrap_p
@@ -951,6 +957,18 @@ class Gen:
                         continue
                     pm[name] = s
                     inner_env.ints[name] = v
+        if self.self_map_p and r.random() < self.self_map_p:
+            for _ in range(r.choice([1, 1, 2])):
+                if r.random() < 0.7 and env.times:
+                    name = r.choice(sorted(env.times))
+                    form, f = r.choice([('%s/2', lambda x: x / 2), ('2*%s', lambda x: 2 * x)])
+                    pm[name] = form % name
+                    inner_env.times[name] = f(env.times[name])
+                elif env.ints:
+                    name = r.choice(sorted(env.ints))
+                    form, f = r.choice([('%s + 1', lambda x: x + 1), ('2*%s', lambda x: 2 * x), ('%s + 2', lambda x: x + 2)])
+                    pm[name] = form % name
+                    inner_env.ints[name] = f(env.ints[name])
         if self.remap_idx_p and env.idx and r.random() < self.remap_idx_p:
             i = force_idx if (force_idx in env.idx and r.random() < 0.8) else r.choice(sorted(env.idx))
             form, f = r.choice([('%s + 1', lambda x: x + 1), ('%s + 2', lambda x: x + 2), ('2*%s', lambda x: 2 * x),
@@ -1001,6 +1019,27 @@ def _rename(node, pat, skip=('k', 'id', 'ch', 'op')):
     if isinstance(node, str):
         return pat.sub('t', node)
     return node
+
+
+def with_single(rng, case: dict) -> Optional[dict]:
+    """a variant of `case` that is instantiated with `to_single_waveform = {identifiers}`: one or two composite nodes
+    (sequence, repetition, iteration, mapping, time reversal) are rendered into one waveform each; their windows -
+    at every nesting level below - stay the declared ones"""
+    spec = strip(case['spec'])
+    comp = [n for n in spec_nodes(spec) if n['k'] in ('seq', 'rep', 'for', 'map', 'rev')]
+    if not comp:
+        return None
+    chosen = rng.sample(comp, min(len(comp), rng.choice([1, 1, 2])))
+    ids = []
+    for i, n in enumerate(chosen):
+        if not n.get('id'):
+            n['id'] = 'single%d' % i
+        ids.append(n['id'])
+    try:
+        build(spec)
+    except Exception:  # noqa
+        return None
+    return dict(case, spec=spec, single=sorted(set(ids)))
 
 
 def scope_with_t(rng, case: dict) -> Optional[dict]:
@@ -1133,6 +1172,8 @@ def random_case(rng, max_depth=4, stream='dyadic', **kw) -> dict:
         used = pt.parameter_names
         params = {k: v for k, v in values.items() if k in used or rng.random() < 0.2}
         case = {'spec': spec, 'params': params, 'cm': cm, 'mm': mm, 'single': []}
+        if g.single_p and rng.random() < g.single_p:
+            case = with_single(rng, case) or case
         if g.t_param_p and rng.random() < g.t_param_p:
             case = scope_with_t(rng, case) or case
         if g.typed_p and rng.random() < g.typed_p:
@@ -1640,4 +1681,6 @@ def case_json(case: dict) -> dict:
         out['ptypes'] = dict(case['ptypes'])
     if case.get('reuse'):
         out['reuse'] = True
+    if case.get('enforced'):
+        out['enforced'] = True
     return out
